@@ -178,7 +178,8 @@ impl Check for C09 {
         let g: Vec<(f32, f32)> = vec![(5.3, 6.1), (19.7, 5.2), (33.9, 7.4), (6.8, 19.9), (20.1, 21.3), (34.2, 18.6), (4.9, 33.8), (18.8, 34.6), (33.1, 32.7)];
         let arrs = arrays(q);
         let offs: Vec<f32> = if q { vec![0.0, 4.5, -4.5, 10000.5] } else { vec![0.0, 1.0, 4.5, -1.0, -4.5, 10000.5, -10000.5] };
-        let styles: Vec<(f32, u8, u8)> = if q { vec![(2.0, 0, 1), (4.0, 1, 0)] } else { vec![(2.0, 0, 1), (4.0, 1, 0), (4.0, 2, 2), (2.0, 1, 1)] };
+        // width 8: caps (4 px deep) hold pixels that are inside by more than the margin
+        let styles: Vec<(f32, u8, u8)> = if q { vec![(2.0, 0, 1), (8.0, 1, 0), (8.0, 2, 2)] } else { vec![(2.0, 0, 1), (4.0, 1, 0), (8.0, 2, 2), (8.0, 1, 1), (6.0, 0, 0)] };
         run.bound("polylines", format!("open 2- and 3-vertex polylines, closed triangles (and quadrilaterals) over 9 points x {} dash arrays x {} offsets x {} styles", arrs.len(), offs.len(), styles.len()));
         run.par(g.len() * g.len(), |s, l| {
             let (a, b) = (g[s / g.len()], g[s % g.len()]);
